@@ -241,7 +241,7 @@ def ex_command(draw, depth=0):
         fill = draw(st.sampled_from(["x", "%", "#", "% ", "é", "\\", "a b ", "/"]))
         return (base + fill * n)[:n] + "\n"
     if k == 29:
-        return draw(st.sampled_from(["bogus", "z", "xyzzy 1 2", "&", "~", "k", "!", "=", "@", "ra", "rs", "rx", "rk a nosock", "so nofile", "so f", "make", "make -n x"])) + "\n"
+        return draw(st.sampled_from(["bogus", "z", "xyzzy 1 2", "&", "~", "k", "!", "=", "@", "ra", "rs", "rx", "rk a nosock", "rk z nosock", "rk z /nonexistent/s", "rk", "rk \\y x", "so nofile", "so f", "make", "make -n x"])) + "\n"
     if k == 30:
         # | lists
         a = draw(ex_simple())
